@@ -297,6 +297,13 @@ def greedy_match(ctx, what, got, want, tol):
     if np.all(np.abs(got - want) <= tol[:, None, None]):
         ctx.units += 1
         return
+    # different words with the same image (a label that is not freely reduced) share their
+    # slots: each slot takes the largest tolerance among the expected entries that coincide
+    # with it, since any of the returned copies may land on it
+    if len(want) <= 2000:
+        D = np.max(np.abs(want[:, None] - want[None, :]), axis=(2, 3))
+        same = D <= 1e-9 * (1.0 + np.max(np.abs(want), axis=(1, 2)))[:, None]
+        tol = np.max(np.where(same, tol[None, :], 0.0), axis=1)
     used = np.zeros(len(want), dtype=bool)
     for i in range(len(got)):
         d = np.max(np.abs(want - got[i]), axis=(1, 2))
